@@ -118,6 +118,7 @@ def write_replay(pid, seed, tier, key, src_run, sh, msg):
            'seed': seed, 'tier': tier, 'run_index': src_run,
            'choices': sh['choices'], 'labels': sh.get('labels'),
            'expansion': sh.get('sample'), 'event_log_digest': sh.get('digest'),
+           'schedule_and_fault_trace': sh.get('trace'),
            'minimised': {'from': sh.get('from_len'), 'to': sh.get('to_len'), 'runs': sh.get('runs'),
                          'confirmed_exact_replay': sh.get('ok')},
            'repo_digest': engine.repo_digest(),
@@ -226,6 +227,7 @@ def check(pid, tier, nruns, procs, seed):
                     # fall back to the unminimised sequence (still an exact replay of the run)
                     sh = {'choices': byrun[src]['choices'], 'labels': byrun[src].get('labels'),
                           'sample': byrun[src].get('sample'), 'digest': byrun[src]['digest'],
+                          'trace': byrun[src].get('trace'),
                           'from_len': len(byrun[src]['choices']), 'to_len': len(byrun[src]['choices']),
                           'runs': sh.get('runs'), 'ok': False}
                 else:
